@@ -1181,7 +1181,7 @@ impl Hist {
                 let follow = r.pick(&["none", "dec", "close", "reset", "repo", "inc", "cf", "xfer", "lock2"]);
                 let withliq: Vec<u32> = ids.iter().copied().filter(|i| w.pos(*i).map(|q| q.liquidity > 0).unwrap_or(false)).collect();
                 let id = if !withliq.is_empty() && r.chance(4, 5) { r.pick(&withliq) } else { id };
-                format!("H xlock {} {} {}", id, r.pick(&[0u8, 0, 0, 0, 0, 0, 1, 2]), follow)
+                format!("H xlock {} {} {}", id, r.pick(&[0u8, 0, 0, 0, 0, 0, 0, 1, 2, 3, 4, 5]), follow)
             }
             50..=52 => format!("H cfees {}", id),
             55..=57 => "H cproto".to_string(),
